@@ -191,3 +191,36 @@ pub fn proxy_runtime(target: &[u8]) -> Vec<u8> {
     rt.extend_from_slice(&[0x5a, 0xf1, 0x50, 0x00]);
     rt
 }
+
+/// Init code of the **view** probe, run by `eth_call` without `to`: returns what the EVM itself sees through
+/// the `revm::Database` implementation (not through the RPC getters): NUMBER, ADDRESS (= create address of
+/// the sender at its current nonce), S.get(0..4) by STATICCALL, EXTCODESIZE / EXTCODEHASH / BALANCE of the
+/// given accounts, BLOCKHASH(NUMBER - k) for k = 0..=13. Reads no timestamp, randomness or gas.
+pub fn view_initcode(s_addr: &[u8], accounts: &[Vec<u8>]) -> Vec<u8> {
+    let mut a = Asm::new();
+    let mut ptr: u64 = 0;
+    a.op(0x43).push(ptr).op(0x52);
+    ptr += 32;
+    a.op(0x30).push(ptr).op(0x52);
+    ptr += 32;
+    for slot in 0..4u64 {
+        a.push(6).push(0x1000).op(0x53).push(slot).push(0x1001).op(0x53);
+        // staticcall(gas, S, in 0x1000, 2, out ptr, 32)
+        a.push(32).push(ptr).push(2).push(0x1000).push_bytes(s_addr).op(0x5a).op(0xfa).op(0x50);
+        ptr += 32;
+    }
+    for acc in accounts {
+        a.push_bytes(acc).op(0x3b).push(ptr).op(0x52);
+        ptr += 32;
+        a.push_bytes(acc).op(0x3f).push(ptr).op(0x52);
+        ptr += 32;
+        a.push_bytes(acc).op(0x31).push(ptr).op(0x52);
+        ptr += 32;
+    }
+    for k in 0..=13u64 {
+        a.push(k).op(0x43).op(0x03).op(0x40).push(ptr).op(0x52);
+        ptr += 32;
+    }
+    a.push(ptr).push(0).op(0xf3);
+    a.finish()
+}
